@@ -177,9 +177,87 @@ fn run_states(toks: &[String]) -> String {
     out
 }
 
+fn q(s: String) -> String {
+    format!("\"{}\"", s)
+}
+macro_rules! nt_dg { ($t:ident, $w:ty, $n:expr) => {{ let v = $t($n as $w); format!("(nt D{} G{})", q(format!("{}", v)), q(format!("{:?}", v))) }}; }
+macro_rules! nt_g { ($t:ident, $w:ty, $n:expr) => {{ let v = $t($n as $w); format!("(nt D- G{})", q(format!("{:?}", v))) }}; }
+
+/// `@nt <Type> <n>`: Display / Debug text of the registry newtypes; `@conv <Type> <n>`: integer conversions;
+/// `@sig <s>`: SignatureScheme helpers; `@keybits <g>`
+fn run_nt(ty: &str, n: u64) -> String {
+    match ty {
+        "TlsRecordType" => nt_dg!(TlsRecordType, u8, n),
+        "TlsHandshakeType" => nt_dg!(TlsHandshakeType, u8, n),
+        "TlsVersion" => nt_dg!(TlsVersion, u16, n),
+        "TlsHeartbeatMessageType" => nt_dg!(TlsHeartbeatMessageType, u8, n),
+        "TlsCompressionID" => nt_dg!(TlsCompressionID, u8, n),
+        "KeyUpdateRequest" => { let _ = KeyUpdateRequest(n as u8); "(nt D- G-)".to_string() }
+        "TlsAlertSeverity" => nt_dg!(TlsAlertSeverity, u8, n),
+        "TlsAlertDescription" => nt_dg!(TlsAlertDescription, u8, n),
+        "TlsExtensionType" => nt_dg!(TlsExtensionType, u16, n),
+        "PskKeyExchangeMode" => nt_g!(PskKeyExchangeMode, u8, n),
+        "SNIType" => nt_dg!(SNIType, u8, n),
+        "CertificateStatusType" => nt_dg!(CertificateStatusType, u8, n),
+        "NamedGroup" => nt_dg!(NamedGroup, u16, n),
+        "ECCurveType" => { let v = ECCurveType(n as u8); format!("(nt D{} G-)", q(format!("{}", v))) }
+        "HashAlgorithm" => nt_dg!(HashAlgorithm, u8, n),
+        "SignAlgorithm" => nt_dg!(SignAlgorithm, u8, n),
+        "SignatureScheme" => nt_dg!(SignatureScheme, u16, n),
+        "CtVersion" => nt_dg!(CtVersion, u8, n),
+        _ => "(noentry)".to_string(),
+    }
+}
+
+/// constants of each registry type as (name value) pairs are checked by the translator (T1);
+/// here: every integer conversion must be the identity on the raw value
+fn run_conv(ty: &str, n: u64) -> String {
+    let mut bad: Vec<&str> = Vec::new();
+    match ty {
+        "TlsRecordType" => { if u8::from(TlsRecordType(n as u8)) as u64 != n { bad.push("From") } }
+        "TlsHandshakeType" => { if u8::from(TlsHandshakeType(n as u8)) as u64 != n { bad.push("From") } }
+        "TlsHeartbeatMessageType" => { if u8::from(TlsHeartbeatMessageType(n as u8)) as u64 != n { bad.push("From") } }
+        "TlsVersion" => {
+            let v = TlsVersion(n as u16);
+            if u16::from(v) as u64 != n { bad.push("From") }
+            if v.to_be_bytes() != [(n >> 8) as u8, n as u8] { bad.push("to_be_bytes") }
+            if format!("{:x}", v) != format!("{:x}", n) { bad.push("LowerHex") }
+        }
+        "TlsCompressionID" => {
+            let v = TlsCompressionID(n as u8);
+            if u8::from(v) as u64 != n { bad.push("From") }
+            if *v as u64 != n { bad.push("Deref") }
+            let r: &u8 = v.as_ref();
+            if *r as u64 != n { bad.push("AsRef") }
+        }
+        "TlsCipherSuiteID" => {
+            let v = TlsCipherSuiteID(n as u16);
+            if u16::from(v) as u64 != n { bad.push("From") }
+            if *v as u64 != n { bad.push("Deref") }
+            let r: &u16 = v.as_ref();
+            if *r as u64 != n { bad.push("AsRef") }
+            if format!("{}", v) != format!("{}", n) { bad.push("Display") }
+            if format!("{:x}", v) != format!("{:x}", n) { bad.push("LowerHex") }
+            let name = TlsCipherSuite::from_id(n as u16).map(|c| c.name).unwrap_or("Unknown cipher");
+            if format!("{:?}", v) != format!("0x{:04x}({})", n, name) { bad.push("Debug") }
+        }
+        "TlsExtensionType" => {
+            if u16::from(TlsExtensionType(n as u16)) as u64 != n { bad.push("From") }
+            if TlsExtensionType::from_u16(n as u16).0 as u64 != n { bad.push("from_u16") }
+        }
+        _ => return "(noentry)".to_string(),
+    }
+    if bad.is_empty() { "(conv ok)".to_string() } else { format!("(conv BAD {})", bad.join(",")) }
+}
+
 pub fn run_history(name: &str, toks: &[String]) -> String {
+    let num = |k: usize| -> u64 { toks.get(k).and_then(|s| s.parse().ok()).unwrap_or(0) };
     match name {
         "states" => run_states(toks),
+        "@nt" => run_nt(toks.get(0).map(|s| s.as_str()).unwrap_or(""), num(1)),
+        "@conv" => run_conv(toks.get(0).map(|s| s.as_str()).unwrap_or(""), num(1)),
+        "@sig" => { let s = SignatureScheme(num(0) as u16); format!("(sig {} {} {})", s.hash_alg(), s.sign_alg(), s.is_reserved()) }
+        "@keybits" => match NamedGroup(num(0) as u16).key_bits() { Some(b) => format!("(Some {})", b), None => "None".to_string() },
         _ => "(noentry)".to_string(),
     }
 }
